@@ -525,7 +525,10 @@ def BareVisible (s : Schema) (fuel : Nat) (e : Entity) (an : String) : Prop := v
 /-! ### `operand.field` (EXPresolve_op_dot) and calls with argument lists -/
 
 /-- the operand knows the field: an entity connected to it declares it / the enumeration has the item / a member of the select
-    knows it, or — select only — every member is an enumeration (then the tool only warns) -/
+    knows it, or — select only — every member is an enumeration (then the tool only warns).
+    EXCLUSION (a totalisation, not a judgement): an operand whose type is an imported name, an undefined name or a renaming chain
+    longer than the fuel has kind `unknown`; the model produces no diagnostic for it and this predicate says `True` — such operands
+    are outside the modelled behaviour of `EXPresolve_op_dot` (the generator does not produce them) -/
 def OperandWF (s : Schema) (fuel : Nat) (field : String) (t : TypeRef) : Prop :=
   match operandKind s fuel t with
   | .simple => False
@@ -763,7 +766,11 @@ theorem ruleItem_noError_iff (path : String) (env : Env) (s : Schema) (fuel : Na
 /-! ### bad INVERSE -/
 
 /-- `INVERSE a : [SET OF] T FOR attr`: `T` is an entity of the schema and `attr` is an attribute of `T` or of a supertype of
-    `T` (never of a subtype or sibling) -/
+    `T` (never of a subtype or sibling).
+    TOTALISATION: when `T` names neither an entity nor a type of the schema (undefined or imported) the INVERSE check itself
+    reports nothing and this predicate holds; inside `DeclWF34` / `EntityWF` it always stands next to `TypeRefWF env s a.ty`, which
+    fails for an undefined `T`, and `attrDiags` runs the INVERSE check only when the type reference produced no diagnostic.  An
+    INVERSE whose target is an IMPORTED entity is outside the model (no diagnostic modelled) -/
 def InverseWF (s : Schema) (hasAttr : String → String → Bool) (a : Attr) : Prop :=
   match a.inverseFor with
   | none => True
